@@ -402,3 +402,23 @@ Theorem C01_init_closure_own_name :
                     | Ok (VInt 10), Ok (VInt 1), Ok (VInt 10) => true | _, _, _ => false end) [Slip; Ref; Chk] = true.
 Proof. exact init_closure_own_name. Qed.
 Print Assumptions C01_init_closure_own_name.
+
+(* Repair C01-22.  A lambda expression called where it stands - ((lambda ps body) a ..), (funcall (lambda ps body) a ..),
+   with #' or function - closes over the scope of EACH evaluation: in every mode, state and scope the call yields a
+   value iff the arguments, left to right in the scope sc of this evaluation, yield values and then the function
+   (ps, body, sc) applied to them does - sc, not the scope of an earlier evaluation of the same code position
+   (loop iteration, call of the enclosing function, recursion level).  The two former witnesses are evaluated in the
+   three modes: (3 2 1) [the unrepaired code: (1 1 1)] and ((11 11) (21 21)) [was ((11 11) (12 20))]. *)
+Theorem C01_inline_lambda_closes_over_each_evaluation : forall m n st sc ps body es v st',
+  eval m (S (S n)) st sc (EFuncall (ELambda ps body) es) = (Ok v, st') <->
+  exists vs st1, args_ltr m (eval m (S n)) sc st es vs st1 /\
+    apply_fn m (eval m (S n)) st1 (CClo ps [] body sc) vs = (Ok v, st').
+Proof. exact inline_lambda_call. Qed.
+Print Assumptions C01_inline_lambda_closes_over_each_evaluation.
+Theorem C01_lambda_form_each_evaluation :
+  forallb (fun m => match fst (run m 60 w_lambda_form_loop), fst (run m 60 w_lambda_form_defun) with
+                    | Ok (VList [VInt 3; VInt 2; VInt 1]),
+                      Ok (VList [VList [VInt 11; VInt 11]; VList [VInt 21; VInt 21]]) => true
+                    | _, _ => false end) [Slip; Ref; Chk] = true.
+Proof. exact lambda_form_each_evaluation. Qed.
+Print Assumptions C01_lambda_form_each_evaluation.
